@@ -755,14 +755,17 @@ class Machine:
 		chk.counters["alias:refusals"] += 1
 		if v is None:
 			if len(h.obj) == 0:
-				chk.counters["alias:refusal-on-empty-vector-not-judged"] += 1
+				# every zero-length vector holds the interpreter's one empty tuple: that is not storage shared with another vector
+				chk.judged("alias-refusal", ("refusal", "table-write", "zero-rows"))
+				chk.fail("a write is refused only while another live vector shares the storage", "alias/spurious-refusal/zero-length", f"{label} on a zero-row table raised AliasError; trace {self.tail()}", prop="C15")
 				return
 			chk.judged("alias-refusal", ("refusal", "table-write"))
 			chk.fail("a write is refused only while another live vector shares the storage", f"alias/spurious-refusal/{label.split(':')[0]}-write",
 				f"{label} raised AliasError although table columns are private copies; trace {self.tail()}", prop="C15")
 			return
 		if len(v) == 0:
-			chk.counters["alias:refusal-on-empty-vector-not-judged"] += 1
+			chk.judged("alias-refusal", ("refusal", "zero-length"))
+			chk.fail("a write is refused only while another live vector shares the storage", "alias/spurious-refusal/zero-length", f"{label} on a zero-length vector raised AliasError (all empty vectors hold the one empty tuple; nothing is shared); trace {self.tail()}", prop="C15")
 			return
 		gc.collect()
 		sharers = self.true_sharers(v)
